@@ -2,7 +2,13 @@
 EXTENDS Inventory, Json
 FlowSets == {[idle |-> 100, approach |-> 300, climb |-> 900, takeoff |-> 1100],
              [idle |-> 250, approach |-> 250, climb |-> 700, takeoff |-> 600]}
-Emit == PrintT("@@" \o ToJson([n |-> N, burn |-> [i \in 1..N |-> SegBurn(i)], nc |-> flt.nc, nd |-> flt.nd,
+\* How the flown trajectory is handed to compute_emissions: the Trajectory container (which converts every
+\* per-point field to float64) or a plain object carrying the same attributes as float64 / whole-number
+\* integer arrays (the repository's own tests use such an object).  The inventory does not depend on it.
+\* One carrier per flight, spread deterministically over the flights.
+Carriers == <<"container", "plain_float", "plain_int">>
+Carrier == Carriers[((N + flt.nc + 2 * flt.nd + (TrajFuel \div 1000) + (IF gse THEN 1 ELSE 0)) % 3) + 1]
+Emit == PrintT("@@" \o ToJson([n |-> N, carrier |-> Carrier, burn |-> [i \in 1..N |-> SegBurn(i)], nc |-> flt.nc, nd |-> flt.nd,
                                mode |-> mode, flows |-> flows, apu |-> apu, gse |-> gse,
                                window |-> [i \in 1..N |-> InWindow(i)], trajfuel |-> TrajFuel,
                                ltofuel |-> [m \in {"idle", "approach", "climb", "takeoff"} |-> LtoFuel(m)],
